@@ -21,6 +21,7 @@ Named(e) ==
     [] e.op = "Put" -> Put(e.n, e.g, e.v)
     [] e.op = "PutStm" -> PutStm(e.n, e.g, e.v)
     [] e.op = "OpenStream" -> OpenStream(e.n, e.g, e.v, e.lg)
+    [] e.op = "OpenStreamBad" -> OpenStreamBad(e.n, e.g, e.why)
     [] e.op = "OpenWhileOpen" -> OpenWhileOpen
     [] e.op = "StreamWrite" -> StreamWrite(e.k)
     [] e.op = "CloseStream" -> CloseStream
